@@ -434,6 +434,7 @@ def main():
     ap.add_argument("--replay")
     a = ap.parse_args()
     seed = int(os.environ.get("VERIF_SEED", "0"))
+    os.environ["VERIF_TIER"] = a.tier  # bounded stand-ins size themselves from the tier
     if a.replay:
         data = json.load(open(a.replay))
         props = load_props()
